@@ -382,8 +382,31 @@ theorem C01_system_initial (env : Env) (sub : Nat) (hsub : sub ≤ env.s.maxSubs
     Good sub (cipherOf a sub) env.s.fragmentSize 1 (Sys.fresh a b) (Chan.init 1) :=
   fresh_good env sub hsub va vb ua ca sa ub cb sb la ra lb rb lpa lta rpa rta lpb ltb rpb rtb st stb rsb
 
+open Nx.L1 Nx.Prudp in
+/-- … and after both sides have logged in with the same session key (`login` → `set_session_key`: the per-substream key chain,
+    cipher positions back to 0), whatever the user ids -/
+theorem C01_system_initial_logged_in (env : Env) (sub : Nat) (hsub : sub ≤ env.s.maxSubstreamId) (key : Bytes) (pa ca pb cb : Nat)
+    (va vb : Option Nat) (ua cka sa ub ckb sb : Nat) (la ra lb rb : Addr) (lpa lta rpa rta lpb ltb rpb rtb : Nat) (st stb : Nat)
+    (rsb : Option Nat) :
+    let a := { (Conn.new env va ua cka sa la lpa lta ra rpa rta).login pa ca key with state := st }
+    let b := { (Conn.new env vb ub ckb sb lb lpb ltb rb rpb rtb).login pb cb key with state := stb, remoteSessionId := rsb }
+    Good sub (cipherOf a sub) env.s.fragmentSize 1 (Sys.fresh a b) (Chan.init 1) :=
+  fresh_good_login env sub hsub key pa ca pb cb va vb ua cka sa ub ckb sb la ra lb rb lpa lta rpa rta lpb ltb rpb rtb st stb rsb
+
+open Nx.L1 Nx.Prudp in
+/-- **acknowledgements touch timers only.** Whatever packet carrying the ACK or the aggregate MULTI_ACK flag (and not of the
+    handshake types) is handed to `handle` — genuine, stale, coalesced, or forged — the sequence counters, the stream ciphers
+    and the fragment size are what they were (`AckFr`); at most retransmission timers are cancelled and, for an acknowledged
+    DISCONNECT, the connection is cleaned up. It is a step of the system (`SysOp.ackIn`), so the end-to-end theorems hold with
+    acknowledgements of any kind arriving at the sender at any time: they can delay or stop retransmission, never corrupt,
+    reorder or duplicate what is delivered. (A SYN/ACK is excluded: on an established connection whose SYN timer is still
+    registered it makes the client send another CONNECT, which takes a sequence id — the mechanism of repaired defect D19.) -/
+theorem acks_touch_timers_only (env : Env) (now : Time) (c : Conn) (p : Packet) (hack : (hasAck p.flags || hasMultiAck p.flags) = true)
+    (hns : p.type ≠ TYPE_SYN) (hnc : p.type ≠ TYPE_CONNECT) : AckFr c (c.handle env now p).c :=
+  handle_ack_frame env now c p hack hns hnc
+
 /-! non-vacuity of the system theorems: a run with a two-fragment message, reordering, duplication (one copy through the whole
-    receive path), a forged DISCONNECT, a refused `send`, then a
+    receive path), a forged DISCONNECT, an acknowledgement and an aggregate acknowledgement arriving at the sender, a refused `send`, then a
     three-fragment message sent fragment by fragment with a keep-alive ping between its fragments (and a second `send` that
     finds the lock taken), then a graceful `disconnect()`, a refused `send` after it and the DISCONNECT delivered through `handle`
     meets `Sys.runOk`; the receiver ends up at end-of-stream with exactly the accepted messages (stream transport here, i.e. no RC4, only so
@@ -395,7 +418,9 @@ example :
     let a := { Conn.new env (some 1) 1 2 3 ("10.0.0.2", 1) 15 10 ("10.0.0.1", 2) 1 10 with state := STATE_CONNECTED }
     let b := { Conn.new env (some 1) 4 5 6 ("10.0.0.1", 2) 1 10 ("10.0.0.2", 1) 15 10 with state := STATE_CONNECTED, remoteSessionId := some 3 }
     let forged : Packet := { type := TYPE_DISCONNECT, flags := 6, packetId := 1, sessionId := 3, signature := some [99] }
-    let ops := [SysOp.send 0 [1, 2, 3], .deliver 1, .inject 1 forged, .deliverH 2 1, .deliverH 3 0, .send 5 [], .deliver 7,
+    let ack : Packet := { type := TYPE_DATA, flags := FLAG_ACK, packetId := 1, sessionId := 6, signature := some [1] }
+    let aggr : Packet := { type := TYPE_DATA, flags := FLAG_ACK + FLAG_MULTI_ACK, packetId := 2, substreamId := 1, payload := [0, 0, 2, 0], signature := some [2] }
+    let ops := [SysOp.send 0 [1, 2, 3], .deliver 1, .inject 1 forged, .ackIn 1 ack, .deliverH 2 1, .deliverH 3 0, .ackIn 4 aggr, .send 5 [], .deliver 7,
                 .begin 6 [4, 5, 6, 7, 8], .frag 6, .ping 7, .send 7 [9], .frag 8, .frag 9, .deliver 5, .deliver 3, .deliver 4, .deliver 2,
                 .disconnect 10, .send 11 [10], .deliverH 12 6]
     Sys.runOk env 0 (Sys.fresh a b) ops = true ∧
